@@ -21,6 +21,7 @@ RULE = (
     'ordered pair of operand kinds whose structures differ in a shape, a dtype, a container type or the Stokes kind, '
     'for @ + -, and non-scalar "scalars" for * and /: the expression must raise and not return an operator. '
     'non-trivial = ill-typed pair, or a tree with >=3 leaves having a composite operand on both sides of some node.'
+    ' Also (relatives): X.I @ Y and Y @ X.I for Y a different operator made of the same array objects as X (transpose, A@A.T vs A.T@A, D@A vs A@D, an equal-valued copy): the result is an IdentityOperator only if the reference matrices agree.'
 )
 ASSUMPTIONS = [
     'a NumPy ndarray of rank >= 1 as the left operand of * is not generated (NumPy pre-empts furax and returns an object array)',
